@@ -291,6 +291,7 @@ func runC10(c *Ctx) {
 			// delegation inside the same type (Read -> ReadFrom) or to the delegate owner
 			if del := readDelegation(rf, ow, byT); del != "" {
 				o.Site(rf.Pos(), "delegates to %s", del)
+				delegationPassesError(o, rf)
 				continue
 			}
 			if len(commsOfU(rf)) == 0 && len(rf.Blocks) == 1 && len(findInstrs(rf, isErrorReturn)) == 1 {
@@ -451,4 +452,66 @@ func readDelegation(rf *ssa.Function, ow *dlOwner, byT map[string]*dlOwner) stri
 		return target
 	}
 	return ""
+}
+
+// delegationPassesError: a read method that is implemented by another read method returns that method's error
+// whenever it is not nil (a timeout of the delegate stays a timeout; it is not replaced by an error of the
+// wrapper's own making).
+func delegationPassesError(o *Obligation, rf *ssa.Function) {
+	var call *ssa.Call
+	instrsOf(rf, func(in ssa.Instruction) {
+		if cl, ok := in.(*ssa.Call); ok {
+			if sc := cl.Call.StaticCallee(); sc != nil && strings.HasPrefix(sc.Name(), "Read") && sc != rf {
+				call = cl
+			}
+		}
+	})
+	if call == nil {
+		return
+	}
+	res := call.Call.Signature().Results()
+	if res.Len() == 0 || res.At(res.Len()-1).Type().String() != "error" {
+		return
+	}
+	var derr ssa.Value = call
+	if res.Len() > 1 {
+		derr = nil
+		if refs := call.Referrers(); refs != nil {
+			for _, rfr := range *refs {
+				if ex, ok := rfr.(*ssa.Extract); ok && ex.Index == res.Len()-1 {
+					derr = ex
+				}
+			}
+		}
+	}
+	paths, ok := enumPathsU(rf, 500)
+	if !ok {
+		o.Undecide("the paths of the delegating read %s could not be enumerated", fname(rf))
+		return
+	}
+	for pi := range paths {
+		pt := &paths[pi]
+		ret, isRet := pt.last().(*ssa.Return)
+		if !isRet || ret.Parent() != rf || pt.indexOf(call) < 0 {
+			continue
+		}
+		e := errorOperand(ret)
+		if e == nil {
+			continue
+		}
+		rv := pt.value(e)
+		if derr != nil && (rv == derr || sameOrigin(rv, derr)) {
+			continue
+		}
+		knownNil := false
+		for _, ft := range pt.Conds {
+			if derr != nil && nilFact(ft, func(v ssa.Value) bool { return v == derr || sameOrigin(v, derr) }, true) {
+				knownNil = true
+			}
+		}
+		if !knownNil {
+			o.Fail(ret.Pos(), "%s returns an error of its own making on a path where the error of the read it delegates to was not found nil: a timeout (or EOF) of the underlying read is reported as something else", fname(rf))
+			return
+		}
+	}
 }
